@@ -326,17 +326,19 @@ pub fn parse_and_bind<R: FsModuleResolver>(
         let renamed = unresolved.renamed;
         let js_word = unresolved.name.clone();
         let k = unresolved.name.to_string();
+        // one name can be exported in both of its meanings (`const X = ..; type X = ..; export { X }`)
+        let mut bound = false;
         if let Some(ts_type) = locals.content.type_aliases.get(&k) {
             symbol_exports.insert_type(
                 renamed.to_string(),
                 Rc::new(SymbolExport::TsType {
                     decl: ts_type.clone(),
                     original_file: file_name.clone(),
-                    name: k,
+                    name: k.clone(),
                     span: ts_type.span,
                 }),
             );
-            continue;
+            bound = true;
         }
 
         if let Some(enum_) = locals.content.enums.get(&k) {
@@ -347,7 +349,15 @@ pub fn parse_and_bind<R: FsModuleResolver>(
                     original_file: file_name.clone(),
                 }),
             );
-            continue;
+            // an enum is a type and a value, as with `export enum`
+            symbol_exports.insert_value(
+                renamed.to_string(),
+                Rc::new(SymbolExport::TsEnumDecl {
+                    decl: enum_.clone(),
+                    original_file: file_name.clone(),
+                }),
+            );
+            bound = true;
         }
 
         if let Some(intf) = locals.content.interfaces.get(&k) {
@@ -359,7 +369,7 @@ pub fn parse_and_bind<R: FsModuleResolver>(
                     span: intf.span,
                 }),
             );
-            continue;
+            bound = true;
         }
 
         if let Some(v) = locals.content.exprs.get(&k) {
@@ -372,7 +382,7 @@ pub fn parse_and_bind<R: FsModuleResolver>(
                     original_file: file_name.clone(),
                 }),
             );
-            continue;
+            bound = true;
         }
 
         if let Some(v) = locals.content.exprs_decls.get(&k) {
@@ -385,6 +395,10 @@ pub fn parse_and_bind<R: FsModuleResolver>(
                     original_file: file_name.clone(),
                 }),
             );
+            bound = true;
+        }
+
+        if bound {
             continue;
         }
 
@@ -411,7 +425,15 @@ pub fn parse_and_bind<R: FsModuleResolver>(
                     );
                 }
 
-                ImportReference::Default { .. } => {
+                ImportReference::Default { file_name, .. } => {
+                    // `import D from "./a"; export { D }`: the default export of that file under a new name
+                    symbol_exports.insert_unknown(
+                        renamed.to_string(),
+                        Rc::new(SymbolExport::SomethingOfOtherFile {
+                            something: "default".to_string(),
+                            file: file_name.clone(),
+                        }),
+                    );
                     continue;
                 }
             }
